@@ -2,6 +2,7 @@
 //! on the real chain service (ckb-chain + ckb-shared + ckb-store).
 mod c01;
 mod c02;
+mod c03;
 mod c08;
 mod c10;
 mod c19;
@@ -52,6 +53,11 @@ fn main() {
             let r = c02::run(seed, thorough, &out, &scratch);
             Summary { viol: r.viol, evaluations: r.evaluations, distinct: r.distinct.len(), stats: r.stats, samples: r.samples,
                 rule: "histories on a real on-disk node: extensions with fee-paying transactions (proposed, then committed inside the window; in-block chains, conflicting spends, re-commits of the same transaction on a competing branch, uncles), competing branches that take over (longer, or shorter but heavier after the first epoch), truncations, restarts; after every change of the main chain COLUMN_CELL / TRANSACTION_INFO / INDEX / UNCLES are dumped by iteration from the store and from the published snapshot and compared with a replay of the main chain (property predicate) and with the Coq model's reorg. distinct = distinct histories, each >= 5 steps" }
+        }
+        "C03" => {
+            let r = c03::run(seed, thorough, &out);
+            Summary { viol: r.viol, evaluations: r.evaluations, distinct: r.distinct.len(), stats: r.stats, samples: r.samples,
+                rule: "chain contexts (windows (2,4),(2,5),(1,3),(2,10); transactions proposed at distance w_far, w_close, w_close-1, w_far+1 and never; uncle candidates built as siblings of main-chain blocks) on a real node; the next block is offered through HeaderVerifier + chain service in ~13 valid variants sitting on rule boundaries (timestamp = median+1, = now+15 s, commits exactly at w_close / w_far, two uncles, proposals at the limit) and ~30 mutants breaking exactly one rule (number, epoch continuity / malformed, timestamp old / new, target, cellbase count / position / outputs, duplicate tx / proposal, roots, proposal limit, uncle count / duplicate / main-chain block / number / parent / epoch / target / proposals, commit window too recent / too old / never proposed, reward, DAO, extension root / length); after each refusal tip and canonical columns must be unchanged; a heavier extension of a refused branch must not become canonical. distinct = distinct (context, variant)" }
         }
         "C08" => {
             let r = c08::run(seed, thorough, &out, &scratch);
